@@ -38,3 +38,56 @@ def r5(fx):
 @PROP.rule("R-C01-6", floor=1, doc="scrape uses the same accessors as announce")
 def r6(fx):
     return S.accessor_sibling_rules(fx, "R-C01-6", "udp")
+
+
+@PROP.rule("R-C01-7", floor=2, doc="a torrent whose peers have all stopped or expired is forgotten by the cleaning pass: every shard is pruned, and the "
+                                   "pruning closure drops a permitted torrent that is empty and not referenced by an announce in flight")
+def r7(fx):
+    import re
+    from aq import sym
+    from aq.sym import show, strip_after
+    from aq.util import call_args, ob
+    parent = fx.fn("aquatic_udp::swarm::TorrentMapShards::clean_and_get_statistics")
+    clo = None
+    for line, callee, args in call_args(fx, parent, r"HashMap.*::retain$"):
+        for a in args:
+            if a[0] == "clo":
+                clo = fx.bodies.get(a[1])
+    sites = [i for i, t in parent.calls(r"HashMap.*::retain$")]
+    if clo is None or len(sites) != 1:
+        yield ob("R-C01-7", "forget#udp#retain_site", False, parent, None, "expected exactly one torrent-level retain call with a closure, found %d" % len(sites))
+        return
+    # (1) every iteration of the loop that prunes shards reaches the retain call: no way round it back to the loop header
+    cfg = parent.cfg
+    r = sites[0]
+    loops = [(x, h) for (x, h) in cfg.back_edges() if cfg.block_dominates(h, r) and (r == x or cfg.can_reach(r, x, avoid_blocks=[h]))]
+    headers = {h for _, h in loops}
+    skipping = sorted((x, h) for (x, h) in cfg.back_edges() if h in headers and x != r and h != r and x in cfg.reach_from(h, avoid_blocks=[r]))
+    yield ob("R-C01-7", "forget#udp#every_shard_pruned", len(loops) >= 1 and not skipping, parent, parent.blocks[r]["term"].get("line"),
+             "the torrent-level retain (bb%d) lies in %d loop(s) over the shards; loop iterations that can return to the loop header without "
+             "reaching it (a shard whose stopped-out torrents would never be forgotten): %s" % (r, len(loops), skipping), {"loops": len(loops), "skipping": [list(s) for s in skipping]})
+    # (2) the closure drops a permitted, empty, unreferenced torrent on every path
+    n = 0
+    kept = []
+    for p in sym.Evaluator(fx, clo).run():
+        if p.end != "return" or p.ret is None:
+            continue
+        allows_false = any((sym.atom_bool(a) or (None, None))[1] is False and "AccessList::allows" in show(a["discr"]) for a in p.atoms)
+        if allows_false:
+            continue
+        sole = False
+        for a in p.atoms:
+            v = sym.atom_variant(fx, a)
+            if v and v[2] and v[1] == ["Some"] and re.match(r"Arc::get_mut\(peer_map\)$", show(strip_after(v[0]))):
+                sole = True
+            ab = sym.atom_bool(a)
+            if ab and ab[1] and re.match(r"Eq\(Arc::strong_count\(peer_map\), 1:usize\)$", show(strip_after(ab[0]))):
+                sole = True
+        empty = any((sym.atom_bool(a) or (None, None))[1] is True and "PeerMap::is_empty" in show(a["discr"]) for a in p.atoms)
+        if sole and empty:
+            n += 1
+            rv = strip_after(p.ret)
+            if not (rv[0] == "c" and rv[3] == 0):
+                kept.append(show(rv)[:60])
+    yield ob("R-C01-7", "forget#udp#empty_torrent_dropped", n >= 1 and not kept, clo, None,
+             "%d path(s) of the pruning closure see a permitted torrent that is empty and solely owned; paths keeping it: %s" % (n, kept), {"paths": n})
